@@ -45,10 +45,14 @@ def run_mutant(mut):
             VERIF_REPLAY_DIR=os.path.join(scratch, "replay"),
             VERIF_NPROC=os.environ.get("MUT_NPROC", "8"),
         )
-        proc = subprocess.run(
-            [os.path.join(ROOT, "check"), prop, "--tier", "quick"],
-            env=env, capture_output=True, text=True, timeout=1800,
-        )
+        try:
+            proc = subprocess.run(
+                [os.path.join(ROOT, "check"), prop, "--tier", "quick"],
+                env=env, capture_output=True, text=True, timeout=1800,
+            )
+        except subprocess.TimeoutExpired:
+            return {"property": prop, "name": name, "file": relfile, "old": old, "new": new,
+                    "status": "TIMEOUT", "buckets": [], "wall_s": round(time.time() - t0, 1), "stderr_tail": ""}
         lines = [l for l in proc.stdout.splitlines() if l.startswith("VIOLATION")]
         buckets = [l.strip() for l in proc.stdout.splitlines() if l.startswith("  bucket=")]
         status = "caught" if proc.returncode == 1 and lines else f"MISSED exit={proc.returncode}"
